@@ -62,8 +62,10 @@ def ledger_check(ctx, pid, cfg, selftest_mutator, what):
     lines, sums = run_scenarios(ctx, seeds, blocks)
     # the same scenario family on the VRF beacon backend (the production one): nodes submit VRF proofs as transactions
     l2, s2 = run_scenarios(ctx, [x + 300 for x in seeds[:max(2, len(seeds) // 3)]], blocks, extra=VRF)
-    lines += l2
-    sums += s2
+    # ... and with a minimum balance an account must keep to transact (fee covered, minimum not: rejected before any effect)
+    l3, s3 = run_scenarios(ctx, [x + 600 for x in seeds[:max(2, len(seeds) // 3)]], blocks, extra=["-mintransact", "3"])
+    lines += l2 + l3
+    sums += s2 + s3
     t = totals(sums)
     ctx.log("scenarios: %d seeds (%d on the VRF beacon), %d blocks, %d events" % (len(sums), len(s2), t["blocks"], t["events"]))
     rej, nv, nev = validate(ctx, lines, "TraceLedger", cfg)
